@@ -1,11 +1,148 @@
-(* C16 -- property theorems only. *)
+(* C16 -- property theorems only.  Each is closed by [exact] of a lemma of Proofs.v and
+   followed by Print Assumptions.  All statements hold in every commutative ring
+   (R, 0, 1, +, *, -, opp) -- in particular Z (used by the correspondence run), Q and the reals.
+
+   Conjuncts of the property that are NOT theorems here (they rest on the exact
+   correspondence run and the dense oracle only) are listed at the end. *)
 From Coq Require Import List Arith Bool Ring.
 From Verif.C16 Require Import Model Proofs.
 Import ListNotations.
 
-Theorem diag_spec : forall (R : Type) (rO rI : R) (radd rmul rsub : R -> R -> R) (ropp : R -> R),
-  ring_theory rO rI radd rmul rsub ropp eq ->
-  forall n d x i, i < n ->
+Section Props.
+Variable R : Type.
+Variables (rO rI : R) (radd rmul rsub : R -> R -> R) (ropp : R -> R).
+Variable Rth : ring_theory rO rI radd rmul rsub ropp eq.
+
+(* apply_tprod (tensor.py:97-128): for every number of operands, every storage kind
+   (ndarray: tensordot; sparse/LinearOperator: _modek_tensordot_sparse), None placeholders,
+   rectangular operands and any number of trailing axes, the loop computes
+   Y[a_1..a_n, t] = sum_{j_1..j_n} prod_k B_k[a_k, j_k] X[j_1..j_n, t]   (tprod_spec),
+   and the result has shape (rows of the operands / unchanged for None) ++ trailing. *)
+Theorem apply_tprod_spec : forall ops (X : arr R) sS sT,
+  ashape R X = sS ++ sT -> conf R ops sS ->
+  ashape R (apply_tprod R rO radd rmul ops X) = out_shape R ops sS ++ sT /\
+  forall a t, inr a (out_shape R ops sS) -> inr t sT ->
+    aat R (apply_tprod R rO radd rmul ops X) (a ++ t) = tprod_spec R rO radd rmul ops (aat R X) (a ++ t).
+Proof. exact (apply_tprod_spec_l R rO radd rmul). Qed.
+
+(* NOT PROVED: kron_dense_spec -- forall ops and x of shape (N,), (N,1), (N,m):
+     _apply_kronecker_dense ops x = np.kron(A_1,..,A_n) . x   (flat row/column indices).
+   Missing: the two reshapes around the core (ravel/unravel of np.kron's row and column index).
+   Proved: the core of _apply_kronecker_dense (kronecker.py:68) on the reshaped argument is the
+   Kronecker action in multi-index form, for any number of rectangular operands of any kind and
+   a trailing right-hand-side axis. *)
+Theorem kron_dense_spec_partial : forall (ops : list (operand R)) (X : arr R) sT,
+  ashape R X = map (fun o => mcols R (omat R o)) ops ++ sT ->
+  ashape R (apply_tprod R rO radd rmul (map Some ops) X) = map (fun o => mrows R (omat R o)) ops ++ sT /\
+  forall a t, inr a (map (fun o => mrows R (omat R o)) ops) -> inr t sT ->
+    aat R (apply_tprod R rO radd rmul (map Some ops) X) (a ++ t) =
+    tprod_spec R rO radd rmul (map Some ops) (aat R X) (a ++ t).
+Proof. exact (kron_dense_core_l R rO radd rmul). Qed.
+
+(* _modek_tensordot_sparse (tensor.py:48-64): roll axis k to the front, matricize, apply,
+   reshape back = contraction of axis k with the operator, new axis first *)
+Theorem modek_sparse_spec : forall B k (X : arr R) a rest,
+  inr rest (remove_at k (ashape R X)) ->
+  aat R (modek_tensordot_sparse R rO radd rmul B k X) (a :: rest) =
+  sumn R rO radd (mcols R B) (fun j => rmul (ment R B a j) (aat R X (insert_at k j rest))).
+Proof. exact (modek_sparse_at R rO radd rmul). Qed.
+
+(* BaseBlockOperator._matvec/_matmat column (operators.py:96-108): accumulating
+   y[ran_out] += op . x[ran_in] over any list of placed blocks (any overlaps, any order)
+   is multiplication with the sum of the placed blocks *)
+Theorem block_spec : forall M N bl x r,
+  (forall b, In b bl -> pci R b + mcols R (pb R b) <= N) ->
+  base_block_matvec R rO radd rmul bl x r = mv R rO radd rmul (blocks_dense R rO radd M N bl) x r.
+Proof. exact (base_block_spec_l R rO rI radd rmul rsub ropp Rth). Qed.
+
+(* BaseBlockOperator._transpose (operators.py:109-112) denotes the transposed matrix *)
+Theorem block_transpose : forall M N bl r c,
+  ment R (blocks_dense R rO radd N M (map (placed_T R) bl)) c r = ment R (mT R (blocks_dense R rO radd M N bl)) c r.
+Proof. exact (block_transpose_l R rO radd). Qed.
+
+(* BlockDiagonalOperator (operators.py:121-135): _sizes_to_ranges + BaseBlockOperator act like
+   scipy.linalg.block_diag of the operands (bd_ent), for any number of rectangular blocks ... *)
+Theorem blockdiag_spec : forall ops x r,
+  base_block_matvec R rO radd rmul (block_diagonal R ops) x r = mv R rO radd rmul (blockdiag_dense R rO ops) x r.
+Proof. exact (blockdiag_spec_l R rO rI radd rmul rsub ropp Rth). Qed.
+
+(* ... and its .T like the transposed block_diag matrix *)
+Theorem blockdiag_transpose : forall ops x r,
+  base_block_matvec R rO radd rmul (map (placed_T R) (block_diagonal R ops)) x r =
+  mv R rO radd rmul (mT R (blockdiag_dense R rO ops)) x r.
+Proof. exact (blockdiag_transpose_l R rO rI radd rmul rsub ropp Rth). Qed.
+
+(* DiagonalOperator, IdentityOperator, NullOperator (operators.py:15-57) *)
+Theorem diag_spec : forall n d x i, i < n ->
   diagonal_matvec R rmul d x i = mv R rO radd rmul (diag_dense R rO n d) x i.
-Proof. exact diag_spec_l. Qed.
+Proof. exact (diag_spec_l R rO rI radd rmul rsub ropp Rth). Qed.
+
+Theorem diag_symmetric : forall n d i j, ment R (mT R (diag_dense R rO n d)) i j = ment R (diag_dense R rO n d) i j.
+Proof. exact (diag_symmetric_l R rO). Qed.
+
+Theorem identity_spec : forall n x i, i < n -> identity_matvec R x i = mv R rO radd rmul (eye R rO rI n) x i.
+Proof. exact (identity_spec_l R rO rI radd rmul rsub ropp Rth). Qed.
+
+Theorem null_spec : forall r c x i, null_matvec R rO x i = mv R rO radd rmul (zeros R rO r c) x i.
+Proof. exact (null_spec_l R rO rI radd rmul rsub ropp Rth). Qed.
+
+(* SubspaceOperator._matvec (operators.py:206-218), both values of _is_transpose:
+   y = sum_j P_j (B_j (P_j^T x)) is multiplication with sum_j P_j B_j P_j^T (resp. B_j^T),
+   for every family of prolongations (overlapping, rectangular, any entries) *)
+Theorem subspace_spec : forall n tr PB x r,
+  (forall pb, In pb PB -> mrows R (fst pb) = n) ->
+  subspace_matvec R rO radd rmul tr PB x r = mv R rO radd rmul (subspace_dense R rO radd rmul n tr PB) x r.
+Proof. exact (subspace_spec_l R rO rI radd rmul rsub ropp Rth). Qed.
+
+(* ... and the operator with the flag set denotes the transposed matrix (square B_j) *)
+Theorem subspace_transpose : forall n PB r c,
+  (forall pb, In pb PB -> mcols R (snd pb) = mcols R (fst pb) /\ mrows R (snd pb) = mcols R (fst pb)) ->
+  ment R (subspace_dense R rO radd rmul n true PB) r c = ment R (mT R (subspace_dense R rO radd rmul n false PB)) r c.
+Proof. exact (subspace_transpose_l R rO rI radd rmul rsub ropp Rth). Qed.
+
+(* CSRRowSlice / CSRRowSubset (utils.py:116-179): the rows r0..r1-1 (resp. the listed rows, in
+   the listed order, repetitions allowed) of the matrix the CSR structure denotes, also for
+   unsorted and duplicate column indices *)
+Theorem rowslice_spec : forall A r0 r1 x i, csr_wf R A ->
+  (forall r, r < r1 -> nth (S r) (c_indptr R A) 0 <= length (c_indices R A)) ->
+  i < r1 - r0 ->
+  csr_rowslice R rO radd rmul A r0 r1 x i = mv R rO radd rmul (csr_dense R rO radd A) x (r0 + i).
+Proof. exact (rowslice_spec_l R rO rI radd rmul rsub ropp Rth). Qed.
+
+Theorem rowsubset_spec : forall A rows x i, csr_wf R A ->
+  (forall r, In r rows -> nth (S r) (c_indptr R A) 0 <= length (c_indices R A)) ->
+  i < length rows ->
+  csr_rowsubset R rO radd rmul A rows x i = mv R rO radd rmul (csr_dense R rO radd A) x (nth i rows 0).
+Proof. exact (rowsubset_spec_l R rO rI radd rmul rsub ropp Rth). Qed.
+
+End Props.
+
+Print Assumptions apply_tprod_spec.
+Print Assumptions kron_dense_spec_partial.
+Print Assumptions modek_sparse_spec.
+Print Assumptions block_spec.
+Print Assumptions block_transpose.
+Print Assumptions blockdiag_spec.
+Print Assumptions blockdiag_transpose.
 Print Assumptions diag_spec.
+Print Assumptions diag_symmetric.
+Print Assumptions identity_spec.
+Print Assumptions null_spec.
+Print Assumptions subspace_spec.
+Print Assumptions subspace_transpose.
+Print Assumptions rowslice_spec.
+Print Assumptions rowsubset_spec.
+
+(* NOT PROVED (no theorem; covered by the exact correspondence run and the dense oracle only):
+
+   kron_dense_spec: see kron_dense_spec_partial above.
+   kron_linops_spec: forall square ops and x of shape (N,), (N,1), (N,m),
+     _apply_kronecker_linops ops x = (A_1 (x) ... (x) A_n) . x.  Missing: the invariant of the
+     column-major sweeps (after the sweep for factor i the flat buffer holds the digits
+     (a_{i-1},..,a_0,a'_{n-1},..,a'_i,k), fastest first).
+   kron_transpose: follows from kron_dense_spec/kron_linops_spec applied to the transposed operands.
+   grid_block_spec: BlockOperator's layout (ranges from the first block row/column, null blocks skipped)
+     equals np.block of the grid; block_spec covers the accumulation for any placement.
+   modek_tprod_spec (rollaxis(-1,k) / moveaxis(0,k) put the new axis back in position k).
+   kron_solver_inverts, fastdiag_inverts: mixed-product property on tprod_spec + the factor solvers'
+     / eigh's contracts. *)
